@@ -177,23 +177,31 @@ inductive PF where
   | ok | violation | error
   deriving DecidableEq, Repr, Inhabited
 
+/-- NoOwnerReferences violated.  (after the C04-a fix) like DryRun it guards writing the
+desired state only and skips itself during teardown. -/
+def vOwner (cfg : Cfg) (inPhase : Bool) (p : PObj) : Bool := cfg.flavour.noOwnerRefs && inPhase && p.presetOwnerRef
+
+/-- NamespaceEscalation violated.  (after the C11-a fix) the scope is checked also when the
+namespace equals the owner's: the API ignores metadata.namespace on cluster-scoped kinds. -/
+def vNs (cfg : Cfg) (ow : Owner) (phaseClass : String) (inPhase : Bool) (p : PObj) : Bool :=
+  cfg.flavour.nsEscalation &&
+  (if ow.ns = "" then false
+   else if inPhase && phaseClass ≠ "" then false
+   else if desiredNs ow p ≠ "" && desiredNs ow p ≠ ow.ns then true
+   else cfg.scope p.kind ≠ .namespaced)
+
+/-- Is the DryRun checker consulted?  (after the C04-a fix) not during teardown — the only
+caller without the phase in the context: whether the desired state would still be accepted is
+irrelevant for an object that is going to be deleted. -/
+def dryActive (cfg : Cfg) (inPhase : Bool) : Bool := cfg.flavour.dryRun && inPhase
+
 def preflightObj (cfg : Cfg) (ow : Owner) (phaseClass : String) (inPhase : Bool) (p : PObj) : PF :=
   -- APIExistence: unknown API ⇒ violation, sub-checkers not run
   if cfg.scope p.kind = .unknown then .violation
-  else
-    let vOwner := cfg.flavour.noOwnerRefs && p.presetOwnerRef
-    let vNs :=
-      cfg.flavour.nsEscalation &&
-      (if ow.ns = "" then false
-       else if inPhase && phaseClass ≠ "" then false
-       else if desiredNs ow p ≠ "" && desiredNs ow p ≠ ow.ns then true
-       -- (after the C11-a fix) the scope is checked also when the namespace equals the owner's:
-       -- the API ignores metadata.namespace on cluster-scoped kinds
-       else cfg.scope p.kind ≠ .namespaced)
-    -- preflight.List runs every checker; an error from DryRun aborts
-    if cfg.flavour.dryRun && p.dryRun = .error then .error
-    else if vOwner || vNs || (cfg.flavour.dryRun && p.dryRun = .reject) then .violation
-    else .ok
+  -- preflight.List runs every checker; an error from DryRun aborts
+  else if dryActive cfg inPhase && p.dryRun = .error then .error
+  else if vOwner cfg inPhase p || vNs cfg ow phaseClass inPhase p || (dryActive cfg inPhase && p.dryRun = .reject) then .violation
+  else .ok
 
 /-- `CheckAllInPhase`: `error` if any checker errors before …; the Go loop returns at the first
 error, violations are collected otherwise. -/
